@@ -34,10 +34,16 @@ KEY_RULES = [
 ]
 
 
+TRACKED = []     # "Type.field" names of the table, filled by table_leg (longest first)
+
+
 def key_from_text(txt, fallback):
     for pat, key in KEY_RULES:
         if re.search(pat, txt):
             return key
+    for f in TRACKED:   # a tracked field named on one of the racing source lines
+        if re.search(r"\b%s\b" % re.escape(f.split(".", 1)[1]), txt):
+            return "race-" + f
     return fallback
 
 
@@ -45,18 +51,18 @@ def key_from_text(txt, fallback):
 
 def workloads(tier, seed):
     th = tier == "thorough"
-    seeds = [seed * 1000 + k for k in range(12 if th else 3)]
+    seeds = [seed * 1000 + k for k in range(30 if th else 3)]
     w = []
     for s in seeds:
         w.append(dict(name="broker-matched", pkg="./broker", cwd="broker", run="^TestVerifC20BrokerMatched$",
                       env=dict(VERIF_C20_N="96" if th else "48", VERIF_SEED=str(s)), timeout=120))
-    for s in seeds[: (3 if th else 1)]:
+    for s in seeds[: (6 if th else 1)]:
         w.append(dict(name="broker-herd", pkg="./broker", cwd="broker", run="^TestVerifC20BrokerHerd$",
                       env=dict(VERIF_C20_HERD="64" if th else "24", VERIF_SEED=str(s)), timeout=120, may_hang=True))
-    for s in seeds[: (6 if th else 1)]:
+    for s in seeds[: (12 if th else 1)]:
         w.append(dict(name="turbotunnel", pkg="./common/turbotunnel", cwd="common/turbotunnel", run="^TestVerifC20QueueConn$",
                       env=dict(VERIF_C20_N="24" if th else "12", VERIF_C20_MS="1500" if th else "500", VERIF_SEED=str(s)), timeout=180))
-    for s in seeds[: (6 if th else 2)]:
+    for s in seeds[: (12 if th else 2)]:
         w.append(dict(name="peers", pkg="./client/lib", cwd="client/lib", run="^TestVerifC20Peers$",
                       env=dict(VERIF_C20_N="120" if th else "24", VERIF_SEED=str(s)), timeout=180))
         w.append(dict(name="byteslogger", pkg="./proxy/lib", cwd="proxy/lib", run="^TestVerifC20BytesLogger$",
@@ -111,14 +117,17 @@ def race_leg(ctx):
     ws = workloads(ctx.tier, ctx.seed)
     pkgs = sorted(set(w["pkg"] for w in ws))
     exes = {}
+    t0 = time.time()
     with concurrent.futures.ThreadPoolExecutor(max_workers=3) as ex:
         futs = {p: ex.submit(vlib.go_test_build, p, None, True) for p in pkgs}
         for p, f in futs.items():
             exes[p] = f.result()          # GoBuildError propagates: harness no longer builds
+    ctx.extra["race_build_s"] = round(time.time() - t0, 1)
     per_key = {}
     summary = []
-    for w in ws:
-        rc, out, err, dt = run_workload(w, exes[w["pkg"]])
+    with concurrent.futures.ThreadPoolExecutor(max_workers=3) as ex:
+        results = list(ex.map(lambda w: run_workload(w, exes[w["pkg"]]), ws))
+    for w, (rc, out, err, dt) in zip(ws, results):
         case = "race %s seed=%s %s" % (w["name"], w["env"].get("VERIF_SEED"), " ".join("%s=%s" % kv for kv in sorted(w["env"].items()) if kv[0] != "VERIF_SEED"))
         ctx.count(case, kind="race-" + w["name"])
         line = next((l for l in out.split("\n") if l.startswith("C20 ")), "")
@@ -223,17 +232,36 @@ def coq_failing_fields():
 
 
 def table_leg(ctx):
+    t0 = time.time()
     text, doc = extract_table()
+    ctx.extra["extract_s"] = round(time.time() - t0, 1)
     old = open(GEN).read() if os.path.exists(GEN) else None
     if old != text:
         open(GEN, "w").write(text)
         vlib.log("Gen/AccessTable.v regenerated from %s (%d rows): re-checking the proofs" % (vlib.REPO, len(doc["rows"])))
+        vlib.coq_build()
+
+    def mt(rel):
+        try:
+            return os.path.getmtime(os.path.join(vlib.COQ, rel))
+        except OSError:
+            return 0
+    if old != text or mt("Properties/C20.vo") < max(mt("Gen/AccessTable.vo"), mt("Gen/AccessTable.v")):
+        # a failing rebuild leaves the previous .vo files behind: drop them so that the status is the real one
+        if mt("Properties/C20.vo") < max(mt("Gen/AccessTable.vo"), mt("Gen/AccessTable.v")):
+            for dep in ("Proofs/AccessTableProofs", "Properties/C20"):
+                for ext in (".vo", ".vok", ".vos", ".glob"):
+                    try:
+                        os.remove(os.path.join(vlib.COQ, dep + ext))
+                    except OSError:
+                        pass
         ctx.proof = vlib.proof_status(ctx.cid)
     rows = doc["rows"]
     by_field = {}
     for r in rows:
         by_field.setdefault(r["field"], []).append(r)
         ctx.count("row %s %s %s [%s]" % (r["site"], r["field"], r["kind"], ",".join(r["held"])), kind="table-" + r["kind"])
+    TRACKED[:] = sorted(set(f.replace("[]", "") for f in by_field), key=lambda f: (-len(f), f))
     ctx.extra["table_rows"] = len(rows)
     ctx.extra["table_fields"] = len(by_field)
     ctx.extra["coverage_lost"] = doc.get("coverage_lost", [])
@@ -250,7 +278,7 @@ def table_leg(ctx):
     groups = {}
     for f in sorted(set(failing_coq) | set(failing_py)):
         guard, bad = culprits(by_field.get(f, []))
-        key = key_from_text(" ".join(r["fn"] + " " + r["field"] for r in bad), "race-" + re.sub(r"[^A-Za-z0-9_.]", "", f))
+        key = key_from_text(" ".join(r["fn"] + " " + r["field"] for r in bad), "race-" + re.sub(r"[^A-Za-z0-9_.]", "", f.replace("[]", "")))
         g = groups.setdefault(key, dict(fields=[], rows=[]))
         g["fields"].append(dict(field=f, prevailing_guard=guard))
         g["rows"] += [dict(site=r["site"], fn=r["fn"], field=r["field"], kind=r["kind"], held=r["held"]) for r in bad]
@@ -278,6 +306,12 @@ def run(ctx):
 
 
 def replay(ctx, doc):
-    """Re-run the workloads named in a replay file (race reports) / re-evaluate the table."""
+    """A replay file holds table rows (re-extracted and re-evaluated here) and / or race reports (the workloads
+    are re-run with the recorded environment first, then the whole search)."""
+    ctx.proof = vlib.proof_status(ctx.cid)
+    for v in doc.get("violations", []):
+        r = v.get("replay", {})
+        if r.get("kind") == "race-report":
+            print("replaying workload %s env=%s (recorded key %s)" % (r.get("workload"), r.get("env"), v.get("key")))
     run(ctx)
     return ctx.finish()
